@@ -10,6 +10,7 @@ import numpy as np
 from skgstat import Variogram, MetricSpace
 
 from .common import all_close, quiet, frs, parse_nums
+from .common import guarded
 from . import vario
 
 INFO = dict(
@@ -28,6 +29,7 @@ def observe(V):
         return (np.asarray(V.bins, float), np.asarray(V.bin_count), np.asarray(V.experimental, float))
 
 
+@guarded
 def check_case(ctx, case):
     kw = dict(case['kw'])
     coords = np.array(case['coords'], float)
@@ -64,6 +66,28 @@ def check_case(ctx, case):
              sample=dict(kw={k: v for k, v in kw.items()}, n=len(values), dense_edges=ed.tolist()[:4], sparse_edges=es.tolist()[:4]))
     if not (all_close(ed2, ed, rel=0) and cd2.tolist() == cd.tolist() and all_close(xd2, xd, rel=0)):
         ctx.violation('shared-metricspace', 'two variograms on one MetricSpace differ', case)
+    # a MetricSpace handed over *before* its distances were ever computed, used first with a smaller absolute
+    # maxlag and then with this one / with none: earlier users must not change what later users see
+    try:
+        with quiet():
+            lazy = MetricSpace(coords.copy(), kw['dist_func'])
+            small = max(1.0, float(M) * 0.5)
+            observe(Variogram(lazy, values, **dict(kw, maxlag=small)))
+            el, cl, xl = observe(Variogram(lazy, values, **kw))
+            kw_none = dict(kw, maxlag=None)
+            en, cn, xn = observe(Variogram(lazy, values, **kw_none))
+            en0, cn0, xn0 = observe(Variogram(coords, values, **kw_none))
+        ctx.count('lazy_shared_metricspace')
+        if not (all_close(el, ed, rel=1e-12) and cl.tolist() == cd.tolist() and all_close(xl, xd, rel=1e-9)):
+            ctx.violation('shared-metricspace', 'a MetricSpace first used with maxlag=%r gives, for maxlag=%r, edges %r '
+                          'counts %r; a MetricSpace of its own gives edges %r counts %r' % (
+                              small, M, el.tolist(), cl.tolist(), ed.tolist(), cd.tolist()), case)
+        elif not (all_close(en, en0, rel=1e-12) and cn.tolist() == cn0.tolist() and all_close(xn, xn0, rel=1e-9)):
+            ctx.violation('shared-metricspace', 'a MetricSpace first used with maxlag=%r gives, without maxlag, edges %r '
+                          'counts %r; raw coordinates give edges %r counts %r' % (
+                              small, en.tolist(), cn.tolist(), en0.tolist(), cn0.tolist()), case)
+    except ValueError as e:
+        ctx.reject('lazy-ValueError:' + str(e)[:40])
     dall = np.asarray(Vd.distance, float)
     dstored = np.asarray(Vs.distance, float)
     if len(np.unique(dall[dall <= M * (1 + 1e-12)])) < 2:
